@@ -58,16 +58,16 @@ Proof.
   assert (Hp : (match pat with
                 | None => Ok []
                 | Some pt => match searchb (snd pt) s with
-                             | Some b => Ok (if b then [] else [VE (ERegex (fst pt)) p (VStr s)])
+                             | Some b => Ok (if b then [] else [VE (ERegex pt) p (VStr s)])
                              | None => Raise OtherExn end end)
                = Ok (match pat with
-                     | Some pt => if pat_search pt s then [] else [VE (ERegex (fst pt)) p (VStr s)]
+                     | Some pt => if pat_search pt s then [] else [VE (ERegex pt) p (VStr s)]
                      | None => [] end)).
   { destruct pat as [pt|]; [|reflexivity]. unfold pat_search. simpl in Hpat.
     destruct pt as [src tree]. simpl in *. unfold re_modelled, searchb in *.
     destruct (search_rx tree); simpl in *; [reflexivity | discriminate]. }
   rewrite Hp. simpl.
-  destruct (match pat with Some pt => if pat_search pt s then [] else [VE (ERegex (fst pt)) p (VStr s)] | None => [] end);
+  destruct (match pat with Some pt => if pat_search pt s then [] else [VE (ERegex pt) p (VStr s)] | None => [] end);
     [|reflexivity].
   assert (Hl : (match len, mnl, mxl with
                 | None, None, None => Ok []
@@ -206,8 +206,8 @@ Proof.
   apply flat_map_ext. intros [k x]. simpl. rewrite H. reflexivity.
 Qed.
 
-Lemma any_logicR_total fR f p v :
-  Forall2 okR fR f -> any_logicR fR p v = Ok (any_logic f p v).
+Lemma any_logicR_total ts fR f p v :
+  Forall2 okR fR f -> any_logicR ts fR p v = Ok (any_logic ts f p v).
 Proof.
   intros H. unfold any_logic.
   induction H as [|a b fR f Hab H IH]; simpl; [reflexivity|].
